@@ -31,6 +31,11 @@ CHECKS={
    text='Explicit-state BFS to fixpoint over 2 epics (+1 via plan) and <=2 (thorough 3) tasks with new task (root / in epic), set epic, sequence / sequence rm on every task pair and epic pair, done/todo, prune and plan; in every reached state (i) the effective waits-for relation (own deps + children of the epics the task\'s epic depends on) must be acyclic and (ii) if some task is todo and none is doing/blocked/error then something is ready and `claim` must not answer no_ready. The known finding K4 is matched only when the cycle contains an inherited epic-level edge; a cycle of direct edges is a violation.',
    note='State key = canonical labelled graph; bounded item counts.',
    technique='explicit-state BFS over real commands + invariant'),
+
+ 'C09': dict(engine='SEQ', level='model_checking', design='3/C09',
+   text='(a) every store of the C08 scope with <=2 tasks (thorough: + restricted 3-task stores): dry run vs --yes vs the stated policy (done/canceled tasks, then childless epics), dry run byte-identical, pruned ids gone from all lists, dependents\' readiness recomputed, and 9 commands per pruned id must each fail and change nothing; (b) 4 creating commands x every answer of the scripted random source (fresh / collides with live id / with tombstoned task / with tombstoned epic): an acknowledged create must exist and never carry a tombstoned id; commands after compact; (c) all k! orders of a pruned id\'s 7 events in a hand-merged log: none resurrects it or leaves edges behind.',
+   note='ids forced through a scripted crypto/rand source (server and spawned verif binary). Re-issue after compact not explored (no record of the id remains). Synthesised logs in ergo\'s format.',
+   technique='exhaustive small-scope enumeration (states, environment answers, event permutations) over real commands'),
 }
 NA_REASON='check not built yet (work in progress; design in DESIGN.md)'
 m={"version":1,
